@@ -30,6 +30,8 @@ package ops
 // the tested set. Assumed of the caller's filters: they do not write the traversal's bookkeeping.
 //@ import graph "github.com/specterops/dawgs/graph"
 //@ import cardinality "github.com/specterops/dawgs/cardinality"
+// what the caller's node filter answers for a node (the filter is assumed to be a function of the node)
+//@ pure func nodeAccepted(node *graph.Node) bool
 //@ func (s graph.NodeSet) Add(nodes ...*graph.Node)
 //@   opaque
 //@   modifies contents(s)
@@ -41,8 +43,30 @@ package ops
 //@   endfparam
 //@   fparam nodeFilter(node *graph.Node) bool
 //@     nomod
+//@     ensures result == nodeAccepted(node)
 //@   endfparam
 //@   modifies ctx.LimitSkipTracker.Skip, ctx.LimitSkipTracker.seen, contents(nodes), setview(cellof(testedBitmap))
+//@   ensures rejectedIsFree: nodeFilter != nil && !nodeAccepted(segment.Node) ==> ctx.LimitSkipTracker.Skip == old(ctx.LimitSkipTracker.Skip) && ctx.LimitSkipTracker.seen == old(ctx.LimitSkipTracker.seen) && (forall k graph.ID :: (k in nodes) == old(k in nodes))
 //@   ensures revisitIsFree: old(segment.Node.ID in viewof(testedBitmap)) ==> ctx.LimitSkipTracker.Skip == old(ctx.LimitSkipTracker.Skip) && ctx.LimitSkipTracker.seen == old(ctx.LimitSkipTracker.seen) && (forall k graph.ID :: (k in nodes) == old(k in nodes))
 //@   ensures recorded: result ==> segment.Node.ID in viewof(testedBitmap)
 //@   ensures testedGrows: forall y uint64 :: old(y in viewof(testedBitmap)) ==> y in viewof(testedBitmap)
+
+// TraverseIntermediaryPaths, the candidate test: a node the caller's filter rejects consumes no skip/limit budget and adds
+// no path.
+//@ func (s *graph.PathSet) AddPath(path graph.Path)
+//@   opaque
+//@   modifies everything
+//@ func (s *graph.PathSegment) Path() graph.Path
+//@   opaque
+//@   nomod
+//@ func TraverseIntermediaryPaths$1(ctx *TraversalContext, segment *graph.PathSegment) bool
+//@   requires ctx != nil && segment != nil && nodeFilter != nil
+//@   nosafety
+//@   fparam descentFilter(ctx *TraversalContext, segment *graph.PathSegment) bool
+//@     nomod
+//@   endfparam
+//@   fparam nodeFilter(node *graph.Node) bool
+//@     nomod
+//@     ensures result == nodeAccepted(node)
+//@   endfparam
+//@   ensures rejectedIsFree: !nodeAccepted(old(segment.Node)) ==> ctx.LimitSkipTracker.Skip == old(ctx.LimitSkipTracker.Skip) && ctx.LimitSkipTracker.seen == old(ctx.LimitSkipTracker.seen)
